@@ -477,15 +477,17 @@ class CommitTracker:
     @staticmethod
     def snap(world):
         g = world.g
-        return {i: (g["state"][i], g["currentTerm"][i], list(g["log"][i])) for i in world.servers()}
+        return {i: (g["state"][i], g["currentTerm"][i], list(g["log"][i]), g["commitIndex"][i]) for i in world.servers()}
 
     def check(self, world):
         g = world.g
         bad = []
         cur = self.snap(world)
         for i in world.servers():
-            ps, pt, pl = self.prev[i]
-            cs, ct, cl_ = cur[i]
+            ps, pt, pl, pc_ = self.prev[i]
+            cs, ct, cl_, cc = cur[i]
+            if cc < pc_:
+                bad.append(("commit-index-decreased", "commitIndex of %d went from %d to %d (theorem commit_monotone)" % (i, pc_, cc)))
             if ps == "leader" and cs == "leader" and cl_[:len(pl)] != pl:
                 bad.append(("leader-not-append-only", "leader %d rewrote its log" % i))
             if ct < pt:
